@@ -370,6 +370,10 @@ pub fn rel_loc(loc: &str) -> String {
             return loc[i + 1..].to_string();
         }
     }
+    // panics raised inside the standard library on behalf of the reader: toolchain-independent key
+    if let Some(i) = loc.find("/library/") {
+        return format!("std/{}", &loc[i + "/library/".len()..]);
+    }
     loc.to_string()
 }
 
@@ -475,6 +479,14 @@ impl Replayer {
                           if case["c"]["fix"] == Value::Bool(true) { "+fix" } else { "" });
         *self.by_field.entry(fam).or_insert(0) += 1;
         *self.by_verdict.entry(exp["open"].as_str().unwrap_or("?").to_string()).or_insert(0) += 1;
+        if exp["open"] == "ok" {
+            *self.by_verdict.entry(format!("ver:{}", exp["ver"].as_str().unwrap_or("?"))).or_insert(0) += 1;
+        }
+        if case["cr"].as_str().unwrap_or("none") != "none" {
+            // every family must also run on the crude header variants
+            let f = format!("crude/{}", case["c"]["f"].as_str().unwrap_or("?"));
+            *self.by_field.entry(f).or_insert(0) += 1;
+        }
         for d in exp["data"].as_array().map(|a| a.as_slice()).unwrap_or(&[]) {
             *self.by_verdict.entry(format!("data:{}", d["r"].as_str().unwrap_or("?"))).or_insert(0) += 1;
         }
